@@ -7,9 +7,10 @@
  *   SETPFX : <hex>         replace the computed prefix (C string) for the parser events
  *   SETON tlen : <topic><message>     supla_esp_mqtt_parser_set_on
  *   RSFB tlen : <topic><message>      supla_esp_mqtt_parser_rs_fb_action
+ *   BRI tlen : <topic><message>       supla_esp_mqtt_parser_set_brightness (built with -DMQTT_DIMMER_SUPPORT)
  *   VAL unsigned precision hi lo      supla_esp_mqtt_prepare_val on a 25-byte heap buffer, value = hi*2^32+lo
  * outputs:
- *   PREFIX : <hex> | WIRE : <hex> | SETON ret channel on | RSFB ret channel action percentage tilt | VAL : <hex of the C string> */
+ *   PREFIX : <hex> | WIRE : <hex> | SETON ret channel on | RSFB ret channel action percentage tilt | BRI ret channel brightness | VAL : <hex of the C string> */
 #include <string.h>
 #include <os_type.h>
 #include <osapi.h>
@@ -92,6 +93,21 @@ static void run_case(int n, char **lines) {
         if (r) vout("RSFB %u %u %u %u %u", (unsigned)r, (unsigned)ch, (unsigned)action, (unsigned)pct, (unsigned)tilt);
         else vout("RSFB 0 0 0 0 0");
       }
+      free(t); free(m);
+    } else if (strncmp(l, "BRI", 3) == 0) {
+      do_init();
+      unsigned tlen = 0; sscanf(l + 3, "%u", &tlen);
+      if ((int)tlen > len) tlen = (unsigned)len;
+      unsigned mlen = (unsigned)len - tlen;
+      char *t = malloc(tlen ? tlen : 1), *m = malloc(mlen ? mlen : 1);
+      memcpy(t, buf, tlen); memcpy(m, buf + tlen, mlen);
+      uint8 ch = 0, bri = 0;
+#ifdef MQTT_DIMMER_SUPPORT
+      uint8 r = supla_esp_mqtt_parser_set_brightness(t, (uint16_t)tlen, m, mlen, &ch, &bri);
+#else
+      uint8 r = 0;
+#endif
+      if (r) vout("BRI %u %u %u", (unsigned)r, (unsigned)ch, (unsigned)bri); else vout("BRI 0 0 0");
       free(t); free(m);
     } else if (strncmp(l, "VAL", 3) == 0) {
       unsigned uns = 0, prec = 0; unsigned long long hi = 0, lo = 0; sscanf(l + 3, "%u %u %llu %llu", &uns, &prec, &hi, &lo);
